@@ -296,10 +296,10 @@ const BOUNDARY: &[u8] = &[0x00, 0x01, 0x08, 0x09, 0x0a, 0x0b, 0x0d, 0x1f, 0x20, 
 
 fn search_chunk(ctx: &mut Ctx) {
     let alpha = [b'0', b'9', b'a', b'F', b'g', b' ', b'\t', b';', b'\r', b'\n', 0u8, b'x', 0xff, b'G'];
-    enumerate(&alpha, 5, b"", b"", &mut |b| { check_chunk(ctx, b); !ctx.full() });
-    enumerate(&[b'a', b'\r', b'\n', b';', b' '], 6, b"1;", b"", &mut |b| { check_chunk(ctx, b); !ctx.full() });
+    enumerate(&alpha, 5 + deep(), b"", b"", &mut |b| { check_chunk(ctx, b); !ctx.full() });
+    enumerate(&[b'a', b'\r', b'\n', b';', b' '], 6 + deep(), b"1;", b"", &mut |b| { check_chunk(ctx, b); !ctx.full() });
     for prefix in [&b"1"[..], b"fF", b"0;", b"a \t"] {
-        enumerate(&alpha, 4, prefix, b"", &mut |b| { check_chunk(ctx, b); !ctx.full() });
+        enumerate(&alpha, 4 + deep(), prefix, b"", &mut |b| { check_chunk(ctx, b); !ctx.full() });
     }
     for n in 0..=20usize {
         for d in [b'0', b'1', b'f', b'F', b'9', b'a'] {
@@ -313,13 +313,15 @@ fn search_chunk(ctx: &mut Ctx) {
     }
 }
 fn pad(c: u8, n: usize) -> Vec<u8> { vec![c; n] }
+/// WITNESS_DEEP=k (thorough tier): every bounded-exhaustive enumeration goes k symbols deeper
+fn deep() -> usize { std::env::var("WITNESS_DEEP").ok().and_then(|v| v.parse().ok()).unwrap_or(0) }
 
 fn search_request(ctx: &mut Ctx) {
     let alpha = [b'G', b' ', b'/', b'\r', b'\n', b'\t', 0u8, 0x7f, 0xff, b':', b'H', b'1'];
     for cfgb in [0u8, 4, 16 + 64, 127] {
-        enumerate(&alpha, 5, b"", b"", &mut |b| { check_request(ctx, b, cfgb, 1); !ctx.full() });
+        enumerate(&alpha, 5 + deep(), b"", b"", &mut |b| { check_request(ctx, b, cfgb, 1); !ctx.full() });
         for prefix in [&b"GET "[..], b"POST ", b"POS", b"DELE", b"DELET", b"DELETE ", b"PUT ", b"HEAD", b"OPTI", b"PATC", b"CONN", b"TRAC", b"GET / ", b"GET / HTTP/1.", b"GET / HTTP/1.1", b"GET / HTTP/1.1\r\n", b"\r\n\nX "] {
-            enumerate(&alpha, 4, prefix, b"", &mut |b| { check_request(ctx, b, cfgb, 1); !ctx.full() });
+            enumerate(&alpha, 4 + deep(), prefix, b"", &mut |b| { check_request(ctx, b, cfgb, 1); !ctx.full() });
         }
         if ctx.full() { return; }
     }
@@ -367,7 +369,7 @@ fn search_response(ctx: &mut Ctx) {
     let alpha = [b'2', b' ', b'O', b'\r', b'\n', b'\t', 0u8, 0x7f, 0xff, 0x80, b'H'];
     for cfgb in [0u8, 8, 1 + 2 + 16 + 32, 127] {
         for prefix in [&b""[..], b"HTTP/1.1", b"HTTP/1.1 ", b"HTTP/1.1 20", b"HTTP/1.1 200", b"HTTP/1.1 200 ", b"HTTP/1.0 404 N"] {
-            enumerate(&alpha, 4, prefix, b"", &mut |b| { check_response(ctx, b, cfgb, 1); !ctx.full() });
+            enumerate(&alpha, 4 + deep(), prefix, b"", &mut |b| { check_response(ctx, b, cfgb, 1); !ctx.full() });
         }
         if ctx.full() { return; }
     }
@@ -404,10 +406,10 @@ fn search_header_block(ctx: &mut Ctx, start: &[u8], kind: u8) {
     let alpha = [b'a', b':', b' ', b'\t', b'\r', b'\n', 0u8, 0x7f, 0xe1];
     // incl. options of the OTHER message kind (C15: they must have no effect)
     let opt_cfgs: Vec<u8> = if kind == 0 { vec![0, 16, 64, 16 + 64, 2, 1 + 2 + 8 + 32, 64 + 2] } else if kind == 1 { vec![0, 1, 2, 16, 32, 1 + 2, 2 + 32, 1 + 2 + 16 + 32, 4 + 64] } else { vec![0] };
-    enumerate(&alpha, 5, b"", b"", &mut |b| { run(ctx, b, &opt_cfgs, &[1]); !ctx.full() });
+    enumerate(&alpha, 5 + deep(), b"", b"", &mut |b| { run(ctx, b, &opt_cfgs, &[1]); !ctx.full() });
     for prefix in [&b"a:"[..], b"a: b", b"a:b\r\n", b"a: b\r\n ", b"a :", b"\x01x\r\n", b" a:b\r\n", b"a:\r\n"] {
-        enumerate(&alpha, 4, prefix, b"\r\n\r\n", &mut |b| { run(ctx, b, &opt_cfgs, &[0, 1, 2]); !ctx.full() });
-        enumerate(&alpha, 3, prefix, b"", &mut |b| { run(ctx, b, &opt_cfgs, &[1]); !ctx.full() });
+        enumerate(&alpha, 4 + deep(), prefix, b"\r\n\r\n", &mut |b| { run(ctx, b, &opt_cfgs, &[0, 1, 2]); !ctx.full() });
+        enumerate(&alpha, 3 + deep(), prefix, b"", &mut |b| { run(ctx, b, &opt_cfgs, &[1]); !ctx.full() });
         if ctx.full() { return; }
     }
     // boundary byte pairs at every lane phase, in name and in value
